@@ -124,9 +124,7 @@ def unchunkBlk (w : Blk) (wst : Strand) (r : Blk) : Blk :=
 def okChunkDown (l : Location) (w : Blk) (wst : Strand) (ans : Option Location) (keepBlocks : Bool := true) : Bool :=
   if wst = .unstranded ∨ w.2 ≤ w.1 then true else        -- a chunk holds at least one base
   match l with
-  -- nothing to lift: the empty location comes back, or the call refuses (the property speaks about the part of
-  -- a location inside the chunk; it does not oblige the call to accept an empty one)
-  | .empty => ans == some .empty || ans.isNone
+  | .empty => ans == some .empty
   | _ =>
     let clips := (locationBlocks l).filterMap (clip w)
     match ans with
